@@ -699,9 +699,33 @@ ORDER_MODULES += ["clematis.engine.util.embed_store", "clematis.engine.cache", "
                   "clematis.engine.orchestrator.reflection", "clematis.engine.stages.t2.metrics", "clematis.engine.stages.t2.lance_reader", "clematis.engine.stages.t3.trace"]
 
 
+def rule_host_tz(ctx) -> None:
+    """no timestamp parser consults the host's time zone: datetime.astimezone() on a value that came from fromisoformat()
+    reads a naive value in the TZ of the process, so each parser stamps UTC on naive values first
+    (`if t.tzinfo is None: t = t.replace(tzinfo=utc)`) - the three sibling parsers must all do so"""
+    n = 0
+    for q in ("clematis.memory.index:_parse_iso", "clematis.engine.stages.t2.helpers:parse_iso", "clematis.memory.lance_index:_parse_iso8601"):
+        if not ctx.prog.has_func(q):
+            continue
+        f = ctx.func(q)
+        cfg = ctx.cfg(f)
+        ast_calls = [m for m in cfg.nodes for c in node_calls(m) if call_tail(c) == "astimezone"]
+        if not ast_calls:
+            continue
+        n += 1
+        guards = [m for m in cfg.nodes if m.kind == "cond" and src(m.ast).replace(" ", "").endswith(".tzinfoisNone")]
+        stamped = [m for m in cfg.nodes if m.kind == "stmt" and isinstance(m.ast, ast.Assign) and isinstance(m.ast.value, ast.Call) and call_tail(m.ast.value) == "replace"
+                   and any(k.arg == "tzinfo" for k in m.ast.value.keywords) and any(pol and t.replace(" ", "").endswith(".tzinfoisNone") for t, pol in cfg.facts(m))]
+        ok = bool(guards) and bool(stamped) and all(any(cfg.dominates(g, a) for g in guards) for a in ast_calls)
+        ctx.check(ok, "C01.CLOCK", f"{q}/naive-is-utc", f.loc(ast_calls[0].ast), "a timestamp without offset is stamped UTC before astimezone(): the host's TZ is never consulted",
+                  "astimezone() is applied to a possibly naive fromisoformat() value: a timestamp without offset is read in the TZ of the process, so retrieval depends on the host's time zone")
+    ctx.floor("C01.CLOCK", "timestamp parsers converting with astimezone", n, 2)
+
+
 def run(ctx) -> None:
     _REPORTED.clear()
     rule_time(ctx)
+    rule_host_tz(ctx)
     rule_hist(ctx)
     rule_rng(ctx)
     rule_order(ctx)
